@@ -1,4 +1,5 @@
 import RedactVerif.Props.L2
+import RedactVerif.Props.FactsClassify
 /-
 C08 — redactables compose: re-printing is identity, joining is concatenation.
 
